@@ -26,6 +26,8 @@ CmdInfo(c) ==
   CASE c = "A" -> [api |-> "Cmd", cmd |-> "GetDeviceID", netfn |-> 6, num |-> 1, body |-> <<>>]
     [] c = "B" -> [api |-> "Cmd", cmd |-> "GetSystemGUID", netfn |-> 6, num |-> 55, body |-> <<>>]
     [] c = "R" -> [api |-> "Raw", cmd |-> "Raw", netfn |-> 10, num |-> 16, body |-> <<7>>]
+    \* Q: the same command number 10h under another network function (Sensor/Event 04h)
+    [] c = "Q" -> [api |-> "Raw", cmd |-> "Raw", netfn |-> 4, num |-> 16, body |-> <<9>>]
     \* C: Chassis Control (Chassis 00h/02h, power down): the response has no body, so nothing but the message header
     \* (network function, command) and the completion code ties a reply to the request
     [] c = "C" -> [api |-> "Cmd", cmd |-> "ChassisControl", netfn |-> 0, num |-> 2, body |-> <<0>>]
@@ -39,6 +41,7 @@ MsgFor(c, ccb, body) == B(MsgRspBytes(129, CmdInfo(c).netfn + 1, 0, 1, 0, CmdInf
 BodyBytes(c, mk)  == CASE c = "A" -> <<mk, 129, 2, 21, 2, 191, 162, 2, 0, 52, 18>>
                        [] c = "B" -> <<mk>> \o [i \in 1..15 |-> 200 + i]
                        [] c = "R" -> <<mk, 1, 2, 3>>
+                       [] c = "Q" -> <<mk, 4, 5>>
                        [] c = "C" -> <<>>
                        [] c = "X" -> <<mk % 16>>
                        [] c = "G" -> <<220, mk, 9, 9>>
